@@ -53,9 +53,10 @@ Section Bessel.
     let x := m_abs self in
     if ((m_re x : F) <=? lk L_bessel_j1 0 (* 5.0 *)) then j1_mid self else j1_asym self.
 
-  Definition j2_zero (self : T) : T :=
-    self * self / lk L_bessel_j2 0 (* 8.0 *) * ((one : T) - self * self / lk L_bessel_j2 1 (* 12.0 *)).
+  Definition j2_series (self : T) : T :=
+    let z := self * self in
+    z / lk L_bessel_j2 1 (* 8.0 *) * polevl z B_SJ2.
+  Definition j2_rec (self : T) : T := bessel_j1 self * lk L_bessel_j2 2 (* 2.0 *) / self - bessel_j0 self.
   Definition bessel_j2 (self : T) : T :=
-    if nt_is_zero (m_re self : F) then j2_zero self
-    else bessel_j1 self * lk L_bessel_j2 2 (* 2.0 *) / self - bessel_j0 self.
+    if (std_abs (m_re self : F) <? lk L_bessel_j2 0 (* 0.25 *)) then j2_series self else j2_rec self.
 End Bessel.
